@@ -147,7 +147,7 @@ struct Trapped {
   std::string str() const;
 };
 // Runs f (which returns an int status).  exit() inside f unwinds to here by longjmp.
-Trapped runTrapped(const std::function<int()> &f);
+Trapped runTrapped(const std::function<int()> &f, unsigned watchdogSeconds = 0);   // SIGALRM after the watchdog counts as a crash
 extern bool g_tainted;      // set after a trapped crash: the process state may be damaged
 
 typedef int (*ToolMain)(int, const char **);
